@@ -254,7 +254,7 @@ func checkReturned(r *Report, m *spModel, rule string) {
 	rc := a.Ctx(rf)
 	rc.ensureConds()
 	fam := map[*ssa.Function]bool{m.AssertFn: true}
-	for _, cs := range p.StaticCallersOf(m.AssertFn) {
+	for _, cs := range p.CallersOf(m.AssertFn) {
 		if sameSig(cs.Caller, m.AssertFn) {
 			fam[cs.Caller] = true // parseEncryptedAssertion forwards to it
 		}
@@ -343,16 +343,16 @@ func paramSources(p *Prog, fn *ssa.Function, idx int, depth int, seen map[string
 	}
 	seen[key] = true
 	var out []string
-	sites := p.StaticCallersOf(fn)
+	sites := p.CallersOf(fn)
 	if len(sites) == 0 {
 		return []string{"parameter of entry point " + p.FnName(fn)}
 	}
 	for _, cs := range sites {
-		args := cs.Instr.Common().Args
-		if idx >= len(args) {
+		arg := cs.Arg(idx)
+		if arg == nil {
 			continue
 		}
-		out = append(out, valueSources(p, cs.Caller, args[idx], depth, seen)...)
+		out = append(out, valueSources(p, cs.Caller, arg, depth, seen)...)
 	}
 	return out
 }
